@@ -129,6 +129,8 @@ def gen_probes(ctx, drv, quick):
     # no hold: A's whole call, then B's (every triple); for the two-word states also with the flip of u in between
     for (i, a, b) in triples:
         add((i, a, 0, b, 0, 0), "no-hold")
+        if i != "pre1":
+            add((i, a, 0, b, 0, 1), "no-hold")
     # one hold: A at each of its hold points; the aimed class: A is held inside the wake-up body, the launch (re-check walk) or the
     # removal, and B makes progress meanwhile
     one = []
@@ -233,6 +235,8 @@ def _run(ctx, quick, verbose=False):
                 continue
             cap[cls] -= 1
         kept.append((p, m))
+    # the controller flips u itself: never while a held call is inside the walk of u (it owns u's stripe or record lock)
+    kept = [(p, m) for p, m in kept if not (p[5] and "uwalk" in (m["zoneA"], m["zoneB"]))]
     probes, models = [p for p, _ in kept], [m for _, m in kept]
     reals = run_real(exe, probes, models, 40.0)
     findings, mismatches = {}, []
@@ -258,9 +262,10 @@ def _run(ctx, quick, verbose=False):
             findings.setdefault("micro3pre:" + verdict, []).append((why, dict(case, oracle=why)))
         if not contended:
             nexact += 1
-            if not all(r[f] == m[f] for f in CMP):
+            cmpf = [f for f in CMP if not (init == "pre1" and f == "ufull")]      # one precondition word: u is not used
+            if not all(r[f] == m[f] for f in cmpf):
                 mismatches.append(dict(case, what="outcome / access sequence differs from the model: " +
-                                       ", ".join("%s real %s model %s" % (f, r[f], m[f]) for f in CMP if r[f] != m[f])))
+                                       ", ".join("%s real %s model %s" % (f, r[f], m[f]) for f in cmpf if r[f] != m[f])))
         if m["c1"] and r["early"] and not r["stuck"]:
             mismatches.append(dict(case, what="the second call got past a lock which, in the model, the held first call owns"))
         elif not m["c1"] and m["c2"] and r["adone"] and not r["stuck"]:
@@ -283,6 +288,8 @@ def _run(ctx, quick, verbose=False):
         extra = extra[:500]
         if extra:
             em = model_lines(drv, extra)
+            keep = [i for i, (p, m) in enumerate(zip(extra, em)) if not (p[5] and "uwalk" in (m["zoneA"], m["zoneB"]))]
+            extra, em = [extra[i] for i in keep], [em[i] for i in keep]
             er = run_real(exe, extra, em, 3.0)
             for p, m, r in zip(extra, em, er):
                 if r is None:
